@@ -15,6 +15,7 @@ import Proofs.Props.C04
 import Proofs.Lemmas.Router.Rp16_Emittable
 import Proofs.Lemmas.Router.Rp17_EmittableInv
 import Proofs.Lemmas.Router.Rp18_Ibuf
+import Proofs.Lemmas.Router.Rp18_IbufInv
 import Proofs.Lemmas.Router.Rp18_Fits
 namespace C20
 open Encode Codec Admission
@@ -452,5 +453,90 @@ def storeOps : List (Router.Op × List Router.Choice) :=
                [[⟨0, 0, false, false, "t".toUTF8.toList, [109], none, [], false⟩]] &&
              s.datalog.retained.map (·.2) == [⟨0, 0, true, false, "t".toUTF8.toList, [109], none, [], false⟩]
   | .error _ => false
+
+/-! ### round 12 (PARTIAL as to the DATA only): the connection-side hypotheses as an invariant of runs in range
+
+Independent second derivation of the incoming-buffer / connection invariants (relation `IbufSub`, the frame pass
+over every function reachable from `step`), with the producer statement `incoming_buffer_producer`. -/
+
+/-- C20 (stage 3, the frame pass over the incoming buffers, step form): a packet waiting in a link's incoming
+    buffer after a step was waiting in that link's buffer before the step, or it is the packet this step pushed
+    to that link (`Router.step (.push l p)` is the only producer; CONNECT starts from an empty link, DeviceData
+    takes the batch out, nothing else touches an incoming buffer) -/
+theorem incoming_buffer_producer {s s' : Router.RState} {op : Router.Op} {out : Router.Out}
+    (hs : Router.step s op = .ok (s', out)) :
+    ∀ l, ∀ p ∈ (Router.getLink s' l).ibuf, p ∈ (Router.getLink s l).ibuf ∨ op = .push l p :=
+  Router.step_ibuf_cases hs
+
+/-- C20 (stage 3, step form for the incoming buffers): one step whose op is in range (`Router.OpOkC`) keeps the
+    packets waiting in the links' incoming buffers in range (`Router.IbufOk`) — the hypothesis of
+    `connection_hypotheses_preserved_partial` that was not yet an invariant -/
+theorem incoming_buffers_preserved {s s' : Router.RState} {ch : List Router.Choice} {op : Router.Op} {out : Router.Out}
+    (hib : Router.IbufOk s) (hop : Router.OpOkC op = true)
+    (hs : Router.step { s with oracle := ch } op = .ok (s', out)) : Router.IbufOk s' :=
+  Router.step_ibufOk_oracle hib hop hs
+
+/-- C20 (stage 3, run form): after EVERY error-free run from the initial state all of whose ops are in range
+    (`Router.OpsOk`: every pushed packet is `PacketOk`, every CONNECT has `topic_alias_max < 65536`), the packets
+    waiting in the links' incoming buffers are in range (`Router.IbufOk`) and every connection satisfies the
+    connection-side hypotheses of `sweep_forwards_emittable_partial` (`Router.ConnsOk`: broker aliases at most
+    `topic_alias_max < 65536`, subscription identifiers within the variable-byte range) -/
+theorem connection_hypotheses_invariant {cfg : Router.Config} {ops : List (Router.Op × List Router.Choice)}
+    {s : Router.RState} (hrun : Router.run (Router.init cfg) ops = .ok s) (hops : Router.OpsOk ops) :
+    Router.IbufOk s ∧ Router.ConnsOk s :=
+  Router.reachableOk_ibufOk_connsOk hrun hops
+
+/-- the same for `Router.ReachableOk cfg s` (reachable by a run whose ops are all in range), which is closed
+    under steps in range and implies `Router.Reachable cfg s` -/
+theorem connection_hypotheses_reachableOk {cfg : Router.Config} {s : Router.RState} (hr : Router.ReachableOk cfg s) :
+    Router.Reachable cfg s ∧ Router.IbufOk s ∧ Router.ConnsOk s :=
+  ⟨hr.reachable, hr.ibufOk, hr.connsOk⟩
+
+/-- C20 (sweep, run form, PARTIAL as to the DATA only): after every error-free run whose ops are all in range,
+    every notification a sweep builds for a live connection `c` (`fdOut`, which `forward_device_data` pushes to
+    `c`'s link as it is) is `Emittable` for `versionOf c` and is written without error by the codec of that
+    version. No hypothesis about the connection or the state remains (`ConnsOk` is discharged by
+    `connection_hypotheses_invariant`, `lastPkid < MAX_INFLIGHT` by `Inv1.reachable`); what remains is about the
+    DATA: the publishes read are as the router stores them and fit a frame (`StoredOk`, `FitsForward` — the
+    commit-log-contents invariant, not proved), the pass-through properties are well formed, the
+    subscription's QoS is ≤ 2 -/
+theorem sweep_forwards_emittable_run_partial {cfg : Router.Config} {ops : List (Router.Op × List Router.Choice)}
+    {s : Router.RState} (hrun : Router.run (Router.init cfg) ops = .ok s) (hops : Router.OpsOk ops)
+    {id : Nat} {c : Router.Conn} (hc : Router.getConn s id = some c)
+    {req : Router.DataRequest} {pubs : List (Router.Pub × Option Router.Cursor)} {extra : Props}
+    (hsrc : ∀ pc ∈ pubs, Router.StoredOk pc.1 extra = true ∧ Router.FitsForward pc.1 extra) (hx : extraOk extra = true)
+    (hq : req.qos ≤ 2) :
+    ∀ n ∈ (Router.fdOut c req pubs).2,
+      Emittable (Router.versionOf c) extra n = true ∧ encodable (Router.versionOf c) (ofNotif extra n) = true :=
+  sweep_forwards_emittable_reachable_partial ⟨ops, hrun⟩ (connection_hypotheses_invariant hrun hops).2 hc hsrc hx hq
+
+/-- non-vacuity (kernel-evaluated): a concrete non-empty error-free run whose ops are all in range — CONNECT
+    with `topic_alias_max = 10`, a SUBSCRIBE with subscription identifier 5 and a PINGREQ pushed to the link
+    (see the next example: two packets then wait in the incoming buffer), the DeviceData event (the buffer is
+    empty again, the subscription identifier is recorded), the sweep (CONNACK, SUBACK, PINGRESP in the outgoing
+    buffer) — so `connection_hypotheses_invariant` and `sweep_forwards_emittable_run_partial` apply to its end
+    state, which has a live connection with broker aliases and a subscription identifier -/
+example : ∃ s,
+    Router.run (Router.init ⟨10, 1024, 2, 10, .roundRobin⟩)
+      [(.connect ⟨0, "a", true, false, 10, none⟩, []), (.push 0 (.subscribe 1 (some 5) [⟨"t", 1⟩]), []),
+       (.push 0 .pingreq, []), (.event 0 .deviceData, []), (.consume, [.retained []])] = .ok s ∧
+    Router.OpsOk
+      [(.connect ⟨0, "a", true, false, 10, none⟩, []), (.push 0 (.subscribe 1 (some 5) [⟨"t", 1⟩]), []),
+       (.push 0 .pingreq, []), (.event 0 .deviceData, []), (.consume, [.retained []])] ∧
+    (Router.getLink s 0).ibuf.length = 0 ∧ (Router.getLink s 0).obuf.length = 3 ∧
+    ((Router.getConn s 0).map (fun c => (c.brokerAliases.map (·.max), c.subscriptionIds))) = some (some 10, [("t", 5)]) :=
+  ⟨_, by rw [Router.run_eq_runX]; rfl, by decide, by decide, by decide, by decide⟩
+
+/-- non-vacuity of `IbufOk` itself: after the first three ops of that run two packets wait in the link's
+    incoming buffer (and `connection_hypotheses_invariant` says they are in range) -/
+example : ∃ s,
+    Router.run (Router.init ⟨10, 1024, 2, 10, .roundRobin⟩)
+      [(.connect ⟨0, "a", true, false, 10, none⟩, []), (.push 0 (.subscribe 1 (some 5) [⟨"t", 1⟩]), []),
+       (.push 0 .pingreq, [])] = .ok s ∧
+    Router.OpsOk
+      [(.connect ⟨0, "a", true, false, 10, none⟩, []), (.push 0 (.subscribe 1 (some 5) [⟨"t", 1⟩]), []),
+       (.push 0 .pingreq, [])] ∧
+    (Router.getLink s 0).ibuf.length = 2 :=
+  ⟨_, by rw [Router.run_eq_runX]; rfl, by decide, by decide⟩
 
 end C20
